@@ -429,5 +429,30 @@ def run(chk, prog):
                 okk = not g_.some_path_between((b0, i0 - 1), ret_true)
         chk.check(okk, "R6", pf.where, "%s prints a message and makes parse() return false (CFG of parse() under that hypothesis: config-file parser %s, "
                   "%d `return false`, %d of them without a message)" % (text, "unreachable" if not loads else "reachable", len(rfs), len(silent)), key_)
+    # ---- R9: what the boost parsers throw (unknown option, malformed value) reaches main's handler ------------------------------------------
+    # main turns an exception into a message and EXIT_FAILURE, but a `false` from parse() into EXIT_SUCCESS: a handler inside parse()
+    # that does not re-throw therefore turns the error into a success status (or lets the run go on with a half-read configuration)
+    pidx = A.index(pf)
+    throwing = [x for x in A.walk(pf["body"]) if x.get("k") == "CallExpr" and (x.get("callee") or "") in
+                ("boost::program_options::store", "boost::program_options::notify", "boost::program_options::parse_command_line",
+                 "boost::program_options::parse_config_file")]
+    chk.floor("R9-parser-calls", len(throwing), 4)
+    for x in throwing:
+        swallowed = []
+        for t_ in A.enclosing(pidx, x, {"CXXTryStmt"}):
+            in_try = any(y is x or y.get("id") == x["id"] for y in A.walk(t_.get("body") or (t_.get("c") or [{}])[0]))
+            if not in_try:
+                continue
+            for h in t_.get("handlers", []):
+                hb = h.get("body") or {}
+                last = (hb.get("c") or [None])[-1] if hb.get("k") == "CompoundStmt" else hb
+                while isinstance(last, dict) and last.get("k") in ("ExprWithCleanups",) and last.get("c"):
+                    last = last["c"][0]
+                rethrows = isinstance(last, dict) and last.get("k") == "CXXThrowExpr" and not any(y.get("k") == "ReturnStmt" for y in A.walk(hb))
+                if not rethrows:
+                    swallowed.append(h.get("caught") or "...")
+        chk.check(not swallowed, "R9", A.loc(pf, x), "%s: an exception of the parser leaves parse() (it is main that reports it and returns a failure status)%s"
+                  % ((x.get("callee") or "").split("::")[-1], "" if not swallowed else "; caught here without re-throw: %s" % swallowed),
+                  "parse:swallows:%s" % (x.get("callee") or "").split("::")[-1])
     chk.notes.append("C20: store order and targets, _vm writers, alias truth tables on a finite model of boost store/notify instantiated "
                      "with the extracted option table, ignored-option fields, cli/file agreement, error discipline. Exhaustive over the table.")
